@@ -216,7 +216,7 @@ CLAIMED = {
              "reported crossing, which (C20 soundness) lies on the chord and on a wall edge, so the fraction is in [0,1] and the two ends' fractions add to 1.  Correspondence: the model "
              "evaluated by vm_compute on the walls and cells of real grids and of stub regions (700+ cells).  Oracles: every cell of every corpus grid against an independent ray-casting "
              "evaluation; the real calcPenaltyMask / wall normalisation on stub regions with spiky, U-shaped (lines from the reference point cross the wall twice) and off-axis walls in both "
-             "orientations; target points on the wall and on their flux surface, cell centres inside / guard cells outside (non-orthogonal), the wall written to the file. A non-orthogonal member with a steeply inclined floor and a fine target spacing (contours must be extended to reach the wall, C11 only) is part of the target-on-wall oracle. The index bookkeeping of PsiContour (insert / temporaryExtend / reverse with Python's negative indices) is modelled (Model_Contour.v): for EVERY history of inserts inside the list and guard-cell extensions startInd and endInd keep designating the same points (the wall point stays the target), reverse exchanges them, a negative endInd survives extensions; the model is run against the real class on random histories.",
+             "orientations; target points on the wall and on their flux surface, cell centres inside / guard cells outside (non-orthogonal), the wall written to the file. A non-orthogonal member with a steeply inclined floor and a fine target spacing (contours must be extended to reach the wall, C11 only) is part of the target-on-wall oracle. The index bookkeeping of PsiContour (insert / temporaryExtend / reverse with Python's negative indices) is modelled (Model_Contour.v): for EVERY history of inserts inside the list and guard-cell extensions startInd and endInd keep designating the same points (the wall point stays the target), reverse exchanges them, a negative endInd survives extensions; the model is run against the real class on random histories. The orientation test is characterised: the signed area is translation invariant for polygons of any size, and for a triangle clockwise means the third vertex lies to the right of the directed line through the first two.",
         note="Trusted: Coq kernel (no axioms); the even-odd parity test is taken as the definition of inside (Jordan curve theorem not proved) under the contract that the reference point is "
              "inside the wall; target points are compared at a tolerance second order in the FineContour spacing (2.6e-6 m at Nfine = 100).",
         technique="Coq proofs on a computable exact-rational hand model + vm_compute correspondence + independent ray-casting oracle on grids and stub regions", design="6/C11"),
